@@ -694,18 +694,19 @@ func enumerate(r *vk.Run) {
 
 	// (8) SetTimeProfile
 	{
-		// from/to x (each segment absent or one of three values) x nil map x controller ids
-		segValues := [][]int{nil, {510, 690}, {690, 510}, {600, 600}}
+		// from/to x (each segment absent or one of five values: ordinary, reversed, empty, unused 00:00-00:00, reversed by a minute) x nil map x controller ids
+		segValues := [][]int{nil, {510, 690}, {690, 510}, {600, 600}, {0, 0}, {1080, 1079}}
 		cases := []Case{}
 		for _, from := range dateAlphabet {
 			for _, to := range dateAlphabet {
-				for k := 0; k < 64; k++ {
+				nv := len(segValues)
+				for k := 0; k < nv*nv*nv; k++ {
 					for _, id := range idsSmall {
 						c := baseline("SetTimeProfile", cfgBroadcast, id)
 						c.From, c.To = from, to
 						c.Segs = map[string][]int{}
-						for s, kk := 1, k; s <= 3; s, kk = s+1, kk/4 {
-							if v := segValues[kk%4]; v != nil {
+						for s, kk := 1, k; s <= 3; s, kk = s+1, kk/nv {
+							if v := segValues[kk%nv]; v != nil {
 								c.Segs[strconv.Itoa(s)] = v
 							}
 						}
